@@ -202,20 +202,37 @@ func (f *QuadraticFieldExtensionImpl[BFP, A, BF]) Sqrt(v *QuadraticFieldExtensio
 	ok3p := BFP(&pos).Sqrt(&pos)
 	ok3n := BFP(&neg).Sqrt(&neg)
 
-	okp := ok1 & ok2 & ok3p
-	okn := ok1 & ok2 & ok3n
+	// pos and neg now hold the candidates for the real part c of the root (c² = (a ± √norm)/2). A
+	// candidate equal to zero is of no use: the imaginary part is b/(2c). It occurs exactly when b = 0
+	// (the argument lies in the base field), which is handled separately below.
+	okp := ok1 & ok2 & ok3p & BFP(&pos).IsNonZero()
+	okn := ok1 & ok2 & ok3n & BFP(&neg).IsNonZero()
 
 	BFP(&com).Select(okp, &com, &pos)
 	BFP(&com).Select(okn, &com, &neg)
 	BFP(&com).Add(&com, &com)
 	ok4 := BFP(&com).Inv(&com)
 	BFP(&com).Mul(&com, &v.U1)
+	okGeneric := (okp | okn) & ok4
 
-	BFP(&f.U0).Select(okp&ok4, &f.U0, &pos)
-	BFP(&f.U0).Select(okn&ok4, &f.U0, &neg)
-	BFP(&f.U1).Select((okp|okn)&ok4, &f.U1, &com)
+	// b = 0 and no non-zero c: the argument a is zero or a non-residue of the base field, and its
+	// root is purely imaginary, d·i with β·d² = a.
+	var beta, im, zero BF
+	BFP(&beta).SetOne()
+	arith.MulByQuadraticNonResidue(&beta, &beta)
+	okBeta := BFP(&beta).Inv(&beta)
+	BFP(&im).Mul(&v.U0, &beta)
+	okIm := BFP(&im).Sqrt(&im)
+	BFP(&zero).SetZero()
+	okImaginary := okBeta & okIm & BFP(&v.U1).IsZero() & (okGeneric ^ ct.True)
 
-	return (okp | okn) & ok4
+	BFP(&f.U0).Select(okp&okGeneric, &f.U0, &pos)
+	BFP(&f.U0).Select(okn&okGeneric, &f.U0, &neg)
+	BFP(&f.U1).Select(okGeneric, &f.U1, &com)
+	BFP(&f.U0).Select(okImaginary, &f.U0, &zero)
+	BFP(&f.U1).Select(okImaginary, &f.U1, &im)
+
+	return okGeneric | okImaginary
 }
 
 func (f *QuadraticFieldExtensionImpl[BFP, A, BF]) IsNonZero() ct.Bool {
